@@ -27,6 +27,8 @@ FAMILIES = [
     (['b c', 'b c', 'c'], ['c b', '', '']),
     # different strings with identical padded 2-gram bags ('abaca' / 'acaba'), near-duplicates, repeated values
     (['abaca', 'acaba', 'b', 'abaca x'], ['acaba', 'abaca', 'abaca', 'c', 'acaba', 'abaca x']),
+    # tokens that differ only in letter case / accents, with equal frequencies (ties in the token order)
+    (['The cat', 'the Cat sat', 'THE é', 'sat The'], ['the cat', 'The e', 'cat The the', 'É the']),
 ]
 UNSTABLE = ('ftables:Prefix', 'ftables:Position', 'ftables:Suffix')
 
@@ -167,6 +169,21 @@ def w_perm(job):
         for ex in (False, True):
             variants.append(('index=%s extra columns=%s' % (ik, ex), dict(index=ik, extra=ex)))
     variants.append(('repeated call', dict()))
+    if cand is None and lv:
+        # self-join: passing one DataFrame object as both tables must equal passing a copy of it
+        S = pd.DataFrame({'id': [5, 3, 9, 1][:len(lv)] if len(lv) <= 4 else list(range(len(lv))),
+                          's': pd.Series(list(lv), dtype=object), 'u': pd.Series(['u%d' % i for i in range(len(lv))], dtype=object)})
+        a = run_ep(ep, S, S, 1, am=True, lo=['u'], ro=['s', 'u'])
+        b = run_ep(ep, S, S.copy(), 1, am=True, lo=['u'], ro=['s', 'u'])
+        calls += 2
+        cases += 1
+        if multiset(a) != multiset(b) or list(a.columns) != list(b.columns):
+            nviol += 1
+            viol.append({'key': 'C10|perm|%s|fam%d|self-join' % (ep, job['family']),
+                         'what': 'C10: %s with the same DataFrame object as both tables differs from the call with a copy '
+                                 'as right table (values %r): only with the same object %r, only with the copy %r' % (
+                                     ep, lv, [r for r in multiset(a) if r not in multiset(b)][:3],
+                                     [r for r in multiset(b) if r not in multiset(a)][:3]), 'detail': {}})
     for name, v in variants:
         L = frame(lv, 'l', v.get('index', 'range'), v.get('extra', False), v.get('lorder'))
         R = frame(rv, 'r', v.get('index', 'range'), v.get('extra', False), v.get('rorder'))
@@ -367,7 +384,8 @@ def layers(tier):
                     'input row x every n_jobs in 1..n+1 (all chunk boundaries split_table can produce for these '
                     'sizes): no row lost or duplicated' % (nmax - 1), min_nontrivial=1000, chunksize=1))
     jobs = [{'ep': ep, 'family': fi} for ep in ALL_EPS for fi in (1, 5, 2, 3)] + \
-        [{'ep': ep, 'family': 6} for ep in ('join:EDIT_DISTANCE', 'join:JACCARD', 'candset:Size', 'matcher')]
+        [{'ep': ep, 'family': 6} for ep in ('join:EDIT_DISTANCE', 'join:JACCARD', 'candset:Size', 'matcher')] + \
+        [{'ep': ep, 'family': 7} for ep in ALL_EPS]
     Ls.append(Layer('presentation', 'checks.c10:w_perm', jobs,
                     'n_jobs=1: all row permutations of either table (3x4-row family: 6+24, plus joint ones), '
                     'index relabelings (reversed, string, duplicate labels), unrelated extra columns, repeated '
